@@ -6,7 +6,7 @@ EXTENDS Ast, TLC, Json
 Carriers == {"var", "param", "result", "elem", "field", "indexof", "elembox", "fieldbox"}
 Types == {"int", "str", "list"}
 Uses == {"eqnil", "nenil", "get", "or", "orlit", "unwrap_if", "unwrap_stmt", "unwrap_print",
-         "unwrap_while", "eqval", "getuse", "orchain", "unwrap_nested", "unwrap_twice", "unwrap_nested_twice", "or_closure", "or_use", "get_use", "nil_left"}
+         "unwrap_while", "eqval", "getuse", "orchain", "unwrap_nested", "unwrap_twice", "unwrap_nested_twice", "or_closure", "or_use", "get_use", "nil_left", "unwrap_arith"}
 Positions == {"stmt", "inif", "inwhile", "infn"}
 
 (* excluded: an int captured by a function literal is refused as a list index by the type   *)
@@ -89,6 +89,13 @@ UseStmts(s) ==
            <<Print(CASE s.ty = "int" -> Bin("*", Get(E(s)), I(2))
                      [] s.ty = "str" -> Bin("+", Get(E(s)), S("!"))
                      [] s.ty = "list" -> MCall(Get(E(s)), "len", <<>>))>>
+      \* the variable filled by `?=` is used as a plain value of the base type inside the guarded block
+      [] s.use = "unwrap_arith" ->
+           <<DeclW(s), IfElse(UnwrapInto("w", E(s)),
+                              <<Print(CASE s.ty = "int" -> Bin("+", V("w"), I(1))
+                                        [] s.ty = "str" -> Bin("+", V("w"), S("!"))
+                                        [] s.ty = "list" -> MCall(Get(V("w")), "len", <<>>))>>,
+                              <<Print(S("none"))>>)>>
       \* nil written on the left of the comparison
       [] s.use = "nil_left" -> <<Print(Bin("==", Nil, E(s))), Print(Bin("!=", Nil, E(s))),
                                  If(Bin("==", Nil, E(s)), <<Print(S("empty"))>>), If(Bin("!=", Nil, E(s)), <<Print(S("full"))>>)>>
